@@ -105,7 +105,7 @@ func genSweep(g *vlib.G) {
 		if m.usesLS {
 			lss = []int{1, 2, 3}
 			if !th && strings.HasPrefix(m.name, "CG/") && m.name != "CG/HestenesStiefel" {
-				lss = []int{3} // quick: the other CG variants only with More-Thuente
+				lss = []int{2, 3} // quick: the other CG variants not with Backtracking
 			}
 		}
 		concs := []int{0, 1, 2, 3, 4}
@@ -181,10 +181,7 @@ func sweepCase(t *vlib.T, g *vlib.G, m *methodSpec, ls int, o *objective, conc i
 		inits = append(inits, 3)
 	}
 	thrs := []float64{0, 1e-3}
-	recs := []int{-1, 0, 2, 4}
-	if th {
-		recs = []int{-1, 0, 1, 2, 3, 5}
-	}
+	recs := []int{-1, 0, 1, 2, 3, 5}
 	for _, l := range limitSets(m, th) {
 		if l == (limits{}) && cap > 0 {
 			l.f = cap
@@ -204,7 +201,7 @@ func sweepCase(t *vlib.T, g *vlib.G, m *methodSpec, ls int, o *objective, conc i
 						// make the last record (PostIteration) and the one before it fail
 						n := r.lg.nRecord
 						for _, k := range []int{n, n - 1} {
-							if k >= 1 && (th || (k != 2 && k != 4)) {
+							if k >= 1 && k != 1 && k != 2 && k != 3 && k != 5 {
 								c2 := *c
 								c2.recMode = k
 								run(&c2)
@@ -259,7 +256,7 @@ func (c *runCfg) horizon() int {
 // usesMoreThuente reports whether the configuration runs the More-Thuente line search
 // (explicitly, or as the default of CG).
 func (c *runCfg) usesMoreThuente() bool {
-	return c.m.usesLS && (c.ls == 3 || (c.ls == 0 && strings.HasPrefix(c.m.name, "CG/")))
+	return c.m.usesLS && (c.ls == 3 || c.ls == 5 || (c.ls == 0 && strings.HasPrefix(c.m.name, "CG/")))
 }
 
 // failureClass names the defect class of a run that did not return normally.
